@@ -306,6 +306,11 @@ func importNud(p *parser, t *token) *token {
 		p.Advance(")")
 		return t
 	}
+	if p.Token.Symbol == "(name)" {
+		t.Append(p.Advance("(name)"))
+		t.Append(p.Advance("(string)"))
+		return t
+	}
 	appendAlias(p, t)
 	return t
 }
